@@ -25,6 +25,14 @@ fn main() {
         trippy_verif::simnet::run::dump(&log);
         return;
     }
+    if args.first().map(String::as_str) == Some("--gen-corpus") {
+        let dir = std::path::PathBuf::from(&args[1]);
+        std::fs::create_dir_all(&dir).expect("mkdir");
+        for (i, b) in trippy_verif::props::c04::fuzz_corpus().iter().enumerate() {
+            std::fs::write(dir.join(format!("seed-{i:04}")), b).expect("write");
+        }
+        return;
+    }
     if args.len() < 2 {
         eprintln!("usage: vcheck <ID> <quick|thorough> [--sub <name>] | vcheck <ID> --replay <file>");
         std::process::exit(2);
@@ -39,6 +47,21 @@ fn main() {
             eprintln!("--replay needs a file");
             std::process::exit(2);
         };
+        if pc.id == "C04" {
+            if let Some(r) = trippy_verif::props::c04::replay_raw(path) {
+                match r {
+                    Ok(()) => {
+                        println!("C04 replay {path}: passes");
+                        std::process::exit(0);
+                    }
+                    Err(f) => {
+                        println!("  failing oracle [libfuzzer] {}: {}", f.sig, f.msg);
+                        println!("VIOLATION property=C04 replay={path}");
+                        std::process::exit(1);
+                    }
+                }
+            }
+        }
         std::process::exit(engine::replay_file(&pc, path));
     }
     let tier = match args[1].as_str() {
